@@ -62,6 +62,10 @@ CHECKS = {
          "A recorded 17-frame client conversation (CONTINUATION, padding, priority, trailers, WINDOW_UPDATE, PING, RST_STREAM) cut at every byte with handlers returning before or after the cut; every single mutation (delete/duplicate/swap frame, each flag bit, each type 0..10, stream id 0/+2/-2/even, length +-1; a deterministic slice of pairs in thorough); every sequence of <= 3 frames from a 28-frame soup with malformed sizes (and depth 4 over the 11 frames that keep a connection alive in thorough); the server's k-th Write failing for k=1..14; a peer that stops reading. Oracle: no recover() line, no unrecovered panic, ServeConn returns once the peer is gone and handlers returned and virtual timers fired, no goroutine left, pool tracker silent (double release, context recycled while its handler runs).",
          "Canonical internal schedule between events; teardown races at lock granularity are C19's.",
          "DESIGN.md §4 C17"),
+ "C18": ("exhaustive enumeration (ELX) of SETTINGS sequences x positions x exchange sizes on the real ServeConn and the real Client under the controlled scheduler, with the scripted peer enforcing its own limits (strict RFC 7541 decoder, frame sizes, open-stream count)",
+         "Both roles. Every sequence of <= 2 SETTINGS frames (all pairs in thorough) from a 20-frame alphabet (each of the six parameters at boundary and invalid values, two parameters in one frame, a repeated id, an unknown id, empty) delivered at every position of a timeline of 1-2 exchanges (before / between / during), as separate events and as one burst, x header lists of 100 B / 32 KB x bodies of 0 / 20 KB. Oracle: one ACK per valid SETTINGS frame, none for an invalid one or later (server: GOAWAY with the RFC's code; client: no further stream on the connection); every frame after the ACK within the peer's MAX_FRAME_SIZE (header blocks cut into CONTINUATION frames); a stream opened only while fewer than the peer's MAX_CONCURRENT_STREAMS are open; every header block decodes in a strict RFC 7541 decoder holding the peer's limits, the first block after a HEADER_TABLE_SIZE reduction starts with a size update at or below the lowest value, the table never above the limit; the endpoint's own SETTINGS are on the wire (ENABLE_PUSH=0, MAX_CONCURRENT_STREAMS) and enforced (frame above the advertised size, PUSH_PROMISE with push disabled); exchanges complete intact under valid SETTINGS.",
+         "The peer applies a value it advertised as soon as it has sent the SETTINGS frame. An ACK still queued when a connection error ends the connection may be lost. SETTINGS_MAX_HEADER_LIST_SIZE of the peer is advisory and not enforced on the sender. Canonical internal schedule between events (SETTINGS-vs-write races at lock granularity: C19).",
+         "DESIGN.md §4 C18"),
  "C02": ("exhaustive enumeration (ELX) of server response encodings, fragmentations and interleavings against the real Client.RoundTrip path (dial, handshake, both loops) under the controlled scheduler",
          "Request shapes (none / buffered / streamed declared / unknown / empty bodies, connection-specific fields) each checked at the scripted server; response header block split into HEADERS+CONTINUATION at every offset (pairs in thorough), every representation x Huffman choice, every chunking of a 3-byte body incl. empty and padded DATA frames and END_STREAM on an empty frame, a 40000-byte body; 2 (quick) / 3 (thorough) concurrent requests with every frame-level interleaving of their responses. Oracle: each request arrives once on the next odd id, intact; each caller gets exactly the status, fields and body sent on its own stream.",
          "Callers are started one at a time (submission races: C19). Derived fasthttp request headers (user-agent, content-length, content-type) are tolerated.",
